@@ -444,6 +444,9 @@ impl Allocator for Arena {
     #[cfg(feature = "tracing")]
     tracing::debug!("discard {size} bytes");
 
+    // the header of a read-only ARENA lives in a read-only mapping.
+    assert!(!self.ro, "ARENA is read-only");
+
     self.header_mut().discarded += size;
   }
 
@@ -459,6 +462,9 @@ impl Allocator for Arena {
 
   #[inline]
   fn set_minimum_segment_size(&self, size: u32) {
+    // the header of a read-only ARENA lives in a read-only mapping.
+    assert!(!self.ro, "ARENA is read-only");
+
     self.header_mut().min_segment_size = size;
   }
 
